@@ -14,6 +14,7 @@ SIG = {
     'w': 'ssss',
     'var': 's', 'app': 'cc', 'lam': 'bc', 'k': 'ss', 'u': 'c', 'j': 'ss', 't3': 'sss', 's3': 'sss', 'm3': 'sss', 'at': 'sc', 'ta': 'cs',
     'mvar': 's', 'madd': 'cc', 'mmul': 'cc', 'msum': 'bc', 'mlet': 'bcc',
+    'avar': 's', 'aadd': 'cc', 'amul': 'cc', 'alam': 'bc', 'num': 'p',        # 'p' = payload (a number, not a name)
 }
 
 def canon(t, env=None, depth=0):
@@ -23,6 +24,7 @@ def canon(t, env=None, depth=0):
     for kind in sig:
         a = t[i]; i += 1
         if kind == 's': out.append(e.get(a, a))
+        elif kind == 'p': out.append(('#', a))
         elif kind == 'b':
             e = dict(e); e[a] = ('b', d); d += 1      # binder occurrence itself is dropped from the canonical form
         else: out.append(canon(a, e, d))
@@ -35,6 +37,7 @@ def free_names(t, bound=frozenset()):
         if kind == 's':
             if a not in b and a not in out: out.append(a)
         elif kind == 'b': b = b | {a}
+        elif kind == 'p': pass
         else:
             for n in free_names(a, b):
                 if n not in out: out.append(n)
@@ -46,6 +49,7 @@ def all_names(t):
         a = t[i]; i += 1
         if kind in 'sb':
             if a not in out: out.append(a)
+        elif kind == 'p': pass
         else:
             for n in all_names(a):
                 if n not in out: out.append(n)
@@ -56,7 +60,7 @@ def rename(t, m):
     op = t[0]; sig = SIG[op]; out = [op]; i = 1
     for kind in sig:
         a = t[i]; i += 1
-        out.append(m.get(a, a) if kind in 'sb' else rename(a, m))
+        out.append(m.get(a, a) if kind in 'sb' else (a if kind == 'p' else rename(a, m)))
     return tuple(out)
 
 def subterms(t):
@@ -130,7 +134,7 @@ class Closure:
         out = [op]; i = 1
         for kind in sig:
             a = g[i]; i += 1
-            out.append(a if kind == 's' else self.find(canon(a)))
+            out.append(a if kind in 'sp' else self.find(canon(a)))
         return tuple(out)
 
     def _close(self):
@@ -208,6 +212,7 @@ def _freshen(t, env=None):
         if kind == 's': out.append(e.get(a, a))
         elif kind == 'b':
             _fresh_ctr[0] += 1; nn = ('bn', _fresh_ctr[0]); e = dict(e); e[a] = nn; out.append(nn)
+        elif kind == 'p': out.append(a)
         else: out.append(_freshen(a, e))
     return tuple(out)
 
@@ -222,6 +227,7 @@ def _subst_free0(t, n, z):
         elif kind == 'b':
             out.append(a)
             if a == n: shadow = True
+        elif kind == 'p': out.append(a)
         else: out.append(a if shadow else _subst_free0(a, n, z))
     return tuple(out)
 
@@ -233,6 +239,7 @@ def _subst_free_map0(t, m, bound=frozenset()):
         a = t[i]; i += 1
         if kind == 's': out.append(m.get(a, a) if a not in b else a)
         elif kind == 'b': out.append(a); b = b | {a}
+        elif kind == 'p': out.append(a)
         else: out.append(_subst_free_map0(a, m, b))
     return tuple(out)
 
@@ -251,7 +258,7 @@ def apply_pattern(t, pat):
     op = t[0]; sig = SIG[op]; out = [op]; i = 1
     for kind in sig:
         a = t[i]; i += 1
-        out.append(pat[a] if kind in 'sb' else apply_pattern(a, pat))
+        out.append(pat[a] if kind in 'sb' else (a if kind == 'p' else apply_pattern(a, pat)))
     return tuple(out)
 
 if __name__ == '__main__':
@@ -288,6 +295,8 @@ def match_term(C, p, t, smap, vmap):
                     if sm[pa] == ta: nxt.append((sm, vm))
                 elif ta not in sm.values():
                     s2 = dict(sm); s2[pa] = ta; nxt.append((s2, vm))
+            elif kind == 'p':
+                if pa == ta: nxt.append((sm, vm))
             else:
                 # the child class may contain other nodes of the right shape: try every universe term equal to the child
                 cands = [ta] if isinstance(pa, str) else class_members(C, ta)
@@ -307,6 +316,7 @@ def instantiate(p, smap, vmap, fresh):
         if kind in 'sb':
             if a not in smap: smap = dict(smap); smap[a] = fresh(a)
             out.append(smap[a])
+        elif kind == 'p': out.append(a)
         else: out.append(instantiate(a, smap, vmap, fresh))
     return tuple(out)
 
@@ -328,6 +338,42 @@ def rule_instances(C, terms, lhs, rhs):
     return out
 
 # ------------------------------------------------------------------ cheapest represented term of a class
+def const_values(C):
+    """constant value per universe class (wrapping 32-bit arithmetic): least fixpoint over the nodes of the class; classes with two different
+    constants (an unsound history) are reported under the key 'conflict'"""
+    val = {}; conflict = set(); changed = True
+    while changed:
+        changed = False
+        for u, g in C.U.items():
+            v = None
+            if g[0] == 'num': v = g[1] & 0xffffffff
+            elif g[0] in ('aadd', 'amul'):
+                a, b = val.get(C.cls(g[1])), val.get(C.cls(g[2]))
+                if a is not None and b is not None: v = (a + b if g[0] == 'aadd' else a * b) & 0xffffffff
+            if v is None: continue
+            c = C.find(u)
+            if c not in val: val[c] = v; changed = True
+            elif val[c] != v: conflict.add(c)
+    return val, conflict
+
+def const_closure(terms, eqs, nnames, spare=3):
+    """closure of the equations together with what constant folding adds: every class with constant value v also contains (num v).
+    Iterated, because a folded constant can make further terms foldable and further classes equal."""
+    terms, eqs = list(terms), list(eqs)
+    while True:
+        C = Closure(terms, eqs, nnames, spare)
+        val, conflict = const_values(C)
+        new = False
+        for c, v in val.items():
+            n = ('num', v)
+            if canon(n) in C.parent and C.find(canon(n)) == c: continue
+            rep = next(g for u, g in C.U.items() if C.find(u) == c)
+            if n not in terms: terms.append(n)
+            eqs.append((rep, n)); new = True
+        if not new:
+            C.constval, C.const_conflict = val, conflict
+            return C
+
 WEIGHTS = {'AstSize': None, 'Depth': 'depth', 'Weighted': {'var': 1, 'app': 3, 'lam': 2, 'k': 5, 'u': 1, 'j': 4, 't3': 6, 's3': 7, 'm3': 9, 'at': 2, 'ta': 2}, 'WeightedF': {'f': 3, 'g': 2, 'h': 5, 'w': 7}}
 def term_cost(t, cf):
     w = 1 if WEIGHTS[cf] is None else WEIGHTS[cf][t[0]]
